@@ -233,9 +233,12 @@ def run_e2e(ctx, hists=None):
     import websocket._handshake as HS
     hists = hists if hists is not None else e2e_histories(ctx)
     obs = []
-    for h in hists:
+    for hi, h in enumerate(hists):
         HS.CookieJar.jar.clear()
         seen = []
+        # every third history passes the caller's extra headers as one shared list (an application's constant): what one
+        # handshake adds for ITS host must not be there for the next
+        shared_header = ["X-App: verif", "X-Build: 7"] if hi % 3 == 2 else None
         for step in h:
             target, resp, client = step[:3]
             host_opt = step[3] if len(step) > 3 else None
@@ -248,6 +251,8 @@ def run_e2e(ctx, hists=None):
                     kw = {"cookie": client} if client else {}
                     if host_opt:
                         kw["host"] = host_opt
+                    if shared_header is not None:
+                        kw["header"] = shared_header      # ONE list object handed to every handshake of the history
                     ws.connect(f"ws://{target}/", **kw)
                 req = net.requests[0].decode("latin1") if net.requests else ""
                 ck = [l[len("Cookie: "):] for l in req.split("\r\n") if l.startswith("Cookie: ")]
